@@ -453,6 +453,30 @@ func emitC18Shape(t *tr) {
 	} else {
 		t.p("Definition clean_folder_empty_cmp : cmp_op := %s. (* len(siteAssets) <op> 0 *)\n", empty[0])
 	}
+	// 4. expiresAt (certificates.go): return cert.NotAfter.Truncate(<d1>).Add(<d2>)
+	if ea := t.funcs["expiresAt"]; ea == nil || ea.Body == nil || len(ea.Body.List) == 0 {
+		t.errf("expiresAt not found")
+	} else {
+		ok := false
+		if rs, isRet := ea.Body.List[len(ea.Body.List)-1].(*ast.ReturnStmt); isRet && len(rs.Results) == 1 {
+			if add, isCall := rs.Results[0].(*ast.CallExpr); isCall && len(add.Args) == 1 {
+				if sel, isSel := add.Fun.(*ast.SelectorExpr); isSel && sel.Sel.Name == "Add" {
+					if tr, isCall := sel.X.(*ast.CallExpr); isCall && len(tr.Args) == 1 && exprStr(tr.Fun) == "cert.NotAfter.Truncate" {
+						d1, e1 := t.eval(tr.Args[0], 0)
+						d2, e2 := t.eval(add.Args[0], 0)
+						if e1 == nil && e2 == nil {
+							t.p("Definition clean_expires_trunc : Z := (%s)%%Z. (* NotAfter.Truncate(..), ns *)\n", d1.ExactString())
+							t.p("Definition clean_expires_add : Z := (%s)%%Z. (* .Add(..), ns *)\n", d2.ExactString())
+							ok = true
+						}
+					}
+				}
+			}
+		}
+		if !ok {
+			t.errf("expiresAt: expected `return cert.NotAfter.Truncate(<const>).Add(<const>)`")
+		}
+	}
 	if guard != 1 {
 		t.errf("deleteExpiredCerts: expected exactly one `if info, err := storage.Stat(ctx, siteKey); err != nil || info.IsTerminal { continue }`, found %d", guard)
 	} else {
